@@ -6,6 +6,8 @@
 import Aegean.Num
 import Aegean.Py
 
+set_option linter.unusedVariables false
+
 namespace Aegean.Model.C20
 
 /-- fallback for the regenerated bounds (used only when the translator reports UNTRANSLATABLE) -/
@@ -81,5 +83,136 @@ def loadBandFile {β : Type} (rowMin rowMax : Nat → Nat → Nat → Nat) (file
       match loadBand rowMin rowMax plane i n with
       | .error e => .error (.band e)
       | .ok b => .ok b
+
+
+/-! ### The whole function assembled from its regenerated pieces
+
+`Pieces` are the parts of `load_image_band` that the translator regenerates from the source on every run
+(`Gen.C20.*`; the `…Hand` definitions below are what the code looked like when this model was written and stand in
+only when a piece is reported UNTRANSLATABLE).  `loadFull` is the fixed glue between them: validate, compute the row
+bounds from NAXIS2, read `section[lead…, rlo:rhi, clo:chi]` of the requested image (or `data[rlo:rhi, clo:chi]` of the
+expanded image for a compressed file), adjust NAXIS2 / CRPIX2. -/
+
+def guardHand (i n : Int) : Nat := if n ≤ 0 then 1 else if i ≥ n then 2 else if i < 0 then 3 else 0
+def hdrNaxis2Hand (naxis2 crpix2 rowMin rowMax : Int) : Int := rowMax - rowMin
+def hdrCrpix2Hand (naxis2 crpix2 rowMin rowMax : Int) : Int := crpix2 - rowMin
+def secNHand (naxis cube rowMin rowMax naxis1 naxis2 : Nat) : Nat :=
+  if naxis = 2 then 0 else if naxis = 3 then 1 else if naxis = 4 then 2 else 99
+def secL0Hand (naxis cube rowMin rowMax naxis1 naxis2 : Nat) : Nat := if naxis = 3 then cube else 0
+def secL1Hand (naxis cube rowMin rowMax naxis1 naxis2 : Nat) : Nat := if naxis = 4 then cube else 0
+def secRloHand (naxis cube rowMin rowMax naxis1 naxis2 : Nat) : Nat := if naxis = 2 ∨ naxis = 3 ∨ naxis = 4 then rowMin else 0
+def secRhiHand (naxis cube rowMin rowMax naxis1 naxis2 : Nat) : Nat := if naxis = 2 ∨ naxis = 3 ∨ naxis = 4 then rowMax else 0
+def secCloHand (naxis cube rowMin rowMax naxis1 naxis2 : Nat) : Nat := 0
+def secChiHand (naxis cube rowMin rowMax naxis1 naxis2 : Nat) : Nat := if naxis = 2 ∨ naxis = 3 ∨ naxis = 4 then naxis1 else 0
+def cmpRloHand (rowMin rowMax naxis1 naxis2 : Nat) : Nat := rowMin
+def cmpRhiHand (rowMin rowMax naxis1 naxis2 : Nat) : Nat := rowMax
+def cmpCloHand (rowMin rowMax naxis1 naxis2 : Nat) : Nat := 0
+def cmpChiHand (rowMin rowMax naxis1 naxis2 : Nat) : Nat := naxis1
+
+structure Pieces where
+  guard : Int → Int → Nat
+  rowMin : Nat → Nat → Nat → Nat
+  rowMax : Nat → Nat → Nat → Nat
+  hdrNaxis2P : Int → Int → Int → Int → Int
+  hdrCrpix2P : Int → Int → Int → Int → Int
+  hdrNaxis2C : Int → Int → Int → Int → Int
+  hdrCrpix2C : Int → Int → Int → Int → Int
+  secN : Nat → Nat → Nat → Nat → Nat → Nat → Nat
+  secL0 : Nat → Nat → Nat → Nat → Nat → Nat → Nat
+  secL1 : Nat → Nat → Nat → Nat → Nat → Nat → Nat
+  secRlo : Nat → Nat → Nat → Nat → Nat → Nat → Nat
+  secRhi : Nat → Nat → Nat → Nat → Nat → Nat → Nat
+  secClo : Nat → Nat → Nat → Nat → Nat → Nat → Nat
+  secChi : Nat → Nat → Nat → Nat → Nat → Nat → Nat
+  cmpRlo : Nat → Nat → Nat → Nat → Nat
+  cmpRhi : Nat → Nat → Nat → Nat → Nat
+  cmpClo : Nat → Nat → Nat → Nat → Nat
+  cmpChi : Nat → Nat → Nat → Nat → Nat
+
+def handPieces : Pieces :=
+  { guard := guardHand, rowMin := rowMinHand, rowMax := rowMaxHand,
+    hdrNaxis2P := hdrNaxis2Hand, hdrCrpix2P := hdrCrpix2Hand, hdrNaxis2C := hdrNaxis2Hand, hdrCrpix2C := hdrCrpix2Hand,
+    secN := secNHand, secL0 := secL0Hand, secL1 := secL1Hand, secRlo := secRloHand, secRhi := secRhiHand,
+    secClo := secCloHand, secChi := secChiHand,
+    cmpRlo := cmpRloHand, cmpRhi := cmpRhiHand, cmpClo := cmpCloHand, cmpChi := cmpChiHand }
+
+/-- an image HDU as the header cards the function reads and the pixel array in C order
+    `data[axis4][axis3][row][col]` (a 2-D image is 1 × 1 × rows × cols, a 3-D one 1 × k × rows × cols) -/
+structure Img (β : Type) where
+  naxis : Nat
+  naxis1 : Nat
+  naxis2 : Nat
+  crpix2 : Int
+  data : List (List (List (List β)))
+
+structure FullBand (β : Type) where
+  data : List (List β)
+  naxis2 : Int
+  crpix2 : Int
+
+inductive FullErr
+  | guard (code : Nat)     -- the k-th `raise` of the validation prologue
+  | tooManyAxes            -- `raise Exception("Too many NAXIS")`
+  | index                  -- numpy / astropy IndexError: no such plane
+  | shape                  -- the number of leading indices does not leave a 2-D array
+  deriving DecidableEq, Repr
+
+/-- rows `[rlo, rhi)` and of each of them columns `[clo, chi)` -/
+def sliceRC {β : Type} (plane : List (List β)) (rlo rhi clo chi : Nat) : List (List β) :=
+  (slice plane rlo rhi).map (fun r => slice r clo chi)
+
+/-- `a[hdu].section[lead…, rows, cols]` on the 4-level array: the leading indices must use up exactly the
+    axes above the image plane -/
+def readSection {β : Type} (img : Img β) (nlead l0 l1 rlo rhi clo chi : Nat) : Except FullErr (List (List β)) :=
+  if nlead = 99 then .error .tooManyAxes
+  else if nlead + 2 ≠ img.naxis then .error .shape
+  else
+    let a := if nlead = 2 then l0 else 0
+    let b := if nlead = 2 then l1 else if nlead = 1 then l0 else 0
+    match img.data[a]? with
+    | none => .error .index
+    | some vol => match vol[b]? with
+      | none => .error .index
+      | some plane => .ok (sliceRC plane rlo rhi clo chi)
+
+/-- `load_image_band` on one image HDU.  For a compressed file `img` is the expanded image (2-D) and the
+    compressed-branch pieces are used. -/
+def loadFull {β : Type} (P : Pieces) (img : Img β) (compressed : Bool) (cube : Nat) (i n : Int) :
+    Except FullErr (FullBand β) :=
+  let g := P.guard i n
+  if g ≠ 0 then .error (.guard g)
+  else
+    let lo := P.rowMin img.naxis2 n.toNat i.toNat
+    let hi := P.rowMax img.naxis2 n.toNat i.toNat
+    if compressed then
+      match img.data[0]? with
+      | none => .error .index
+      | some vol => match vol[0]? with
+        | none => .error .index
+        | some plane =>
+          .ok { data := sliceRC plane (P.cmpRlo lo hi img.naxis1 img.naxis2) (P.cmpRhi lo hi img.naxis1 img.naxis2)
+                                    (P.cmpClo lo hi img.naxis1 img.naxis2) (P.cmpChi lo hi img.naxis1 img.naxis2),
+                naxis2 := P.hdrNaxis2C img.naxis2 img.crpix2 lo hi,
+                crpix2 := P.hdrCrpix2C img.naxis2 img.crpix2 lo hi }
+    else
+      let s (f : Nat → Nat → Nat → Nat → Nat → Nat → Nat) := f img.naxis cube lo hi img.naxis1 img.naxis2
+      match readSection img (s P.secN) (s P.secL0) (s P.secL1) (s P.secRlo) (s P.secRhi) (s P.secClo) (s P.secChi) with
+      | .error e => .error e
+      | .ok d =>
+        .ok { data := d,
+              naxis2 := P.hdrNaxis2P img.naxis2 img.crpix2 lo hi,
+              crpix2 := P.hdrCrpix2P img.naxis2 img.crpix2 lo hi }
+
+/-- the plane of a well-formed image that the property's statement is about -/
+def planeOf {β : Type} (img : Img β) (cube : Nat) : Option (List (List β)) :=
+  match img.naxis with
+  | 2 => img.data[0]? >>= (·[0]?)
+  | 3 => img.data[0]? >>= (·[cube]?)
+  | 4 => img.data[0]? >>= (·[cube]?)
+  | _ => none
+
+/-- every plane has NAXIS2 rows of NAXIS1 pixels -/
+def WF {β : Type} (img : Img β) : Prop :=
+  ∀ vol ∈ img.data, ∀ plane ∈ vol, plane.length = img.naxis2 ∧ ∀ r ∈ plane, r.length = img.naxis1
 
 end Aegean.Model.C20
